@@ -78,9 +78,10 @@ MixProg(i) ==
 
 (* payload parameters whose names are those of fields and locals the generated builders and dispatcher deal with *)
 NamedPayloadProg(i) ==
-    LET on == IF i = 1 THEN "success" ELSE IF i = 2 THEN "error" ELSE "always" IN
+    \* (1..3: `gas_limit`, `msg`, `id`; 4..6: `payload`, `data`, `result`; 7..9: `error`, `gas_used`, `events`; 10..12: `deps`, `env`, `msg_responses`; 13..15: `error` (a String), `p2`)
+    LET on == IF i % 3 = 1 THEN "success" ELSE IF i % 3 = 2 THEN "error" ELSE "always" IN
     [id |-> "PN" \o ToString(i), family |-> "data",
-     methods |-> << [RM(1, <<"h1">>, on, "tn", "none") EXCEPT !.name = "on_ok"] >>]
+     methods |-> << [RM(1, <<"h1">>, on, IF i <= 3 THEN "tn" ELSE IF i <= 6 THEN "tm" ELSE IF i <= 9 THEN "te" ELSE IF i <= 12 THEN "td" ELSE "ts", "none") EXCEPT !.name = "on_ok"] >>]
 
 (* one payload parameter of type Binary *without* the raw marker: it is encoded and decoded like any other typed parameter *)
 BinPayloadProg(i) ==
@@ -111,7 +112,7 @@ CompiledProgs ==
       \cup {SplitHandlers(b) : b \in BOOLEAN} \cup {DataProgC}
       \cup {DataProgMerged(i, b) : i \in {1, 3, 5}, b \in BOOLEAN}
       \cup {MixProg(i) : i \in 1..4}
-      \cup {NamedPayloadProg(i) : i \in 1..3}
+      \cup {NamedPayloadProg(i) : i \in 1..15}
       \cup {BinPayloadProg(i) : i \in 1..3} \cup {IdProg}
       \cup {LegacyProg(i) : i \in 1..3}))
 
